@@ -1,9 +1,9 @@
 (* C28 - the link between the model's operations (Model/C28Tracked.v) and the method tables that tools/c28_scan.py
    regenerates on every run (Gen/Mutators.v): which of the model's methods does the Tracked* class wrap?  Definitions only. *)
-Require Import PonyV.Model.C28Tracked PonyV.Gen.Mutators.
 From Coq Require Import String List Bool.
+Require Import PonyV.Model.C28Tracked PonyV.Gen.Mutators.
+#[local] Open Scope string_scope.
 Import ListNotations.
-Open Scope string_scope.
 
 Definition mname_str (m : mname) : string :=
   match m with
